@@ -57,6 +57,11 @@ CLAIMED = {
          "Exhaustive for all sequences up to length 5 (PLUS: 4) in quick and 7 (PLUS: 6) in thorough over the stated alphabet, with pruning only after the client aborted or the exchange ended; for SCRAM-SHA-1/-256 and both PLUS variants over a real TLS 1.2 handshake.",
          "Fixed credentials and PBKDF2 iteration count 4; the alphabet is finite and chosen by the harness; the bare-235 acceptance is a recorded known finding (scram-bare-235), excluded by signature and counted.",
          "DESIGN.md section 3, C15"),
+ "C16": ("exploration",
+         "rapid-generated mechanisms x random secrets x server scripts (success, 535 / malformed challenge / disconnect at each exchange step, extra challenge) x logger kinds; oracle: search of every captured log record for the secret in raw/hex/base64(3 alignments) form and for the secret-carrying SASL response lines the reference server recorded, plus presence of the post-auth MAIL line (window closed)",
+         "Generated-input search with a leak-detection oracle driven by what the reference server actually received; sampled.",
+         "Secrets are alphanumeric (so JSON escaping cannot hide them) and >= 12 characters (so needles cannot match by chance); user names and mechanism names are not treated as secrets.",
+         "DESIGN.md section 3, C16"),
  "C17": ("fault_enumeration",
          "stall-point fault injection: the reference server goes silent at every enumerated step of the dial and send dialogues (incl. TLS handshake, AUTH challenges, inside DATA content with a bounded buffer) x TLS policy x auth class x call {DialWithContext, DialAndSend, Send, Reset} x timeout; oracle: the call returns a non-nil error within max(20 x timeout, 15 s), misses must repeat twice",
          "Complete for the enumerated stall points (one per command position per TLS mode and auth mechanism class); boundedness is observed with real clocks, not proved.",
